@@ -144,6 +144,7 @@ VH_AREA(tsim) {
         CircuitGen gen(rng, oo, &st);
         Circuit c = gen.make();
         auto map = make_relabel(rng, gen.nq, k % 3 != 0);
+        if (a.replay.empty()) { Rng ru = rng.sub(777); if (ru.chance(0.2)) { c = unfused_object(c); st.hit("cases.unfused_object"); } }
         Circuit big = relabel(c, map);
         out_case(k, esc_line(big.str()));
         check_circuit(big, k, rng, st);
